@@ -54,6 +54,7 @@ struct TaskResult {
   uint64_t compile_fp = 0, exec_fp = 0;
   bool ok = false;
   long long steps = 0;
+  int interference = 0;   // 1: a second VM built from the same compile result stopped at another VM's breakpoint, 2: it ran differently from a VM on a pristine copy, 3: the compile result itself changed
   bool operator==(const TaskResult &o) const { return compile_fp == o.compile_fp && exec_fp == o.exec_fp; }
 };
 
@@ -64,6 +65,7 @@ TaskResult run_task(const Task &t, long long step_budget) {
   res.compile_fp = fingerprint_result(r);
   res.ok = r.generated_correctly;
   if (!r.generated_correctly) return res;
+  const Program pristine = r.code;   // taken before any VM exists
   VM vm(r.code);
   std::vector<BreakPoint> avail;
   for (auto &b : r.code.getAvailableBreakpoints()) avail.push_back(b);
@@ -91,6 +93,19 @@ TaskResult run_task(const Task &t, long long step_budget) {
   const Program &c = VerifAccess::code(vm);
   for (size_t i = 0; i < c.code.size() && i < r.code.code.size(); i++) if (!same_instr(c.code[i], r.code.code[i], true)) h.add(0xbadc0de + i);
   for (auto &i : r.code.code) if (i.op == OpCode::BREAK) h.add(0xb4eaf);  // a VM's breakpoints must not leak into the compile result
+  // distinct VM instances never influence one another: while `vm` still holds its breakpoints, a second machine built from
+  // the same compile result must run straight to the end, exactly like one built from the pristine copy
+  {
+    VM second(r.code), clean(pristine);
+    long long n = 0; bool early = false;
+    while (n < step_budget) { bool stop = second.executeSingle(); n++; if (stop) { if (!second.isDone()) early = true; break; } }
+    long long m = 0;
+    while (m < n) { bool stop = clean.executeSingle(); m++; if (stop) break; }
+    if (early) res.interference = 1;
+    else if (exec_state_hash(second) != exec_state_hash(clean)) res.interference = 2;
+    for (size_t i = 0; i < pristine.code.size() && i < r.code.code.size(); i++) if (!same_instr(r.code.code[i], pristine.code[i], false)) res.interference = 3;
+    steps += n + m;
+  }
   res.exec_fp = h.get();
   res.steps = steps;
   return res;
@@ -268,6 +283,10 @@ void exec_mt_plan(const Plan &plan, Ctx &ctx, Outcome &out) {
       ctx.check(false, "C18", "compile_result_independent_of_history", "task " + std::to_string(k) + ": compiling the same inputs again later in the process gives a different result");
     else if (alone[k].exec_fp != again[k].exec_fp)
       ctx.check(false, "C18", "vm_independent_of_history", "task " + std::to_string(k) + ": the same VM session gives a different result later in the process");
+    for (const TaskResult *tr : {&alone[k], &conc[k], &again[k]})
+      if (tr->interference)
+        ctx.check(false, "C18", "vm_instances_independent", "task " + std::to_string(k) + ": " + (tr->interference == 1 ? "a second VM built from the same compile result stopped at a breakpoint that was set in another VM"
+                  : tr->interference == 2 ? "a second VM built from the same compile result ran differently from a VM on a pristine copy of the program" : "setting breakpoints in a VM changed the CodegenResult it was built from"));
     if (alone[k].ok) ctx.stats.inc("tasks_compiled_ok"); else ctx.stats.inc("tasks_with_compile_errors");
   }
   if (helper > 0) {
